@@ -92,3 +92,15 @@ Proof.
   intros f Hf. rewrite forallb_forall in H. specialize (H f Hf).
   unfold mem_str in H. apply existsb_exists in H as (x & Hx & He). apply String.eqb_eq in He. subst. exact Hx.
 Qed.
+
+(* the two cooperating sites behind "a peer with nothing pending is idled by its
+   next packet": queue.deliver answers such a packet with errNoFetchesPending
+   (error kind 1 of the model), and fetchParts calls setIdle(peer, accepted)
+   after every delivery except an errStaleDelivery (kind 4) *)
+Definition idle_glue_holds : bool :=
+  String.eqb c18_deliver_unpending_error "errNoFetchesPending"
+  && negb (mem_str c18_deliver_unpending_error c18_fetchparts_not_idled_on)
+  && match c18_fetchparts_not_idled_on with ["errStaleDelivery"] => true | _ => false end.
+
+Lemma idle_glue : idle_glue_holds = true.
+Proof. vm_compute. reflexivity. Qed.
